@@ -111,7 +111,7 @@ fn single_cases(rng: &mut Rng, ncases: usize, max_side: usize) {
     let arrays = eight(&sp, &sp, ls, li, ls, li);
     let sv = sv_sums(&arrays[0], n);
     emit(json!({
-      "kind": "single", "setup": name, "n": n, "mode": mode,
+      "kind": "single", "setup": name, "config": cfg, "n": n, "mode": mode,
       "ls": [fx(ls.0), fx(ls.1)], "li": [fx(li.0), fx(li.1)], "taus": fxs(&taus),
       "series": vec3(series),
       "vis": match vis {
@@ -171,7 +171,55 @@ fn pair_cases(rng: &mut Rng, ncases: usize, max_side: usize) {
   }
 }
 
+/// fixed inputs that once violated the property text (run first by the consumer): setup name, side, signal axis, idler axis, delays
+pub fn corpus_cases() {
+  let integrator = Integrator::default();
+  let list = setups();
+  // (setup, n, signal half-width, idler lower / upper offsets from the idler centre) in rad/s, delays in s
+  let cases: Vec<(&str, usize, f64, f64, f64, Vec<f64>)> = vec![("ktp_pp_type2", 4, 3.0e12, -2.0e12, 4.0e12, vec![0.0, -4.5e-13, 1.0e-12])];
+  for (name, n, ds, lo, hi, taus) in cases {
+    let cfg = match list.iter().find(|(k, _)| *k == name) {
+      Some((_, c)) => c.clone(),
+      None => continue,
+    };
+    let spdc = match build_setup(&cfg) {
+      Ok(s) => s,
+      Err(e) => {
+        emit(json!({"kind": "setup_skip", "setup": name, "why": e}));
+        continue;
+      }
+    };
+    let ws = *(spdc.signal.frequency() / (RAD / S));
+    let wi = *(spdc.idler.frequency() / (RAD / S));
+    let (ls, li) = ((ws - ds, ws + ds, n), (wi + lo, wi + hi, n));
+    let range = space(ls, li);
+    let (s1, t1) = (spdc.clone(), taus.clone());
+    let series = guarded(move || s1.hom_two_source_rate_series(t1.iter().map(|t| *t * S), range, integrator));
+    let s2 = spdc.clone();
+    let vis = guarded(move || s2.hom_two_source_visibilities(range, integrator));
+    let sp = spdc.joint_spectrum(integrator);
+    let arrays = eight(&sp, &sp, ls, li, ls, li);
+    let sv = sv_sums(&arrays[0], n);
+    emit(json!({
+      "kind": "single", "corpus": true, "setup": name, "config": cfg, "n": n, "mode": 9,
+      "ls": [fx(ls.0), fx(ls.1)], "li": [fx(li.0), fx(li.1)], "taus": fxs(&taus),
+      "ws": fx(ws), "wi": fx(wi),
+      "series": vec3(series),
+      "vis": match vis {
+        Ok(v) => json!({"ss": [fx(*(v.ss.0 / S)), fx(v.ss.1)], "ii": [fx(*(v.ii.0 / S)), fx(v.ii.1)], "si": [fx(*(v.si.0 / S)), fx(v.si.1)]}),
+        Err(p) => json!({"panic": p}),
+      },
+      "arrays": arrays.iter().map(|a| cjson(a)).collect::<Vec<_>>(),
+      "sv2": sv.map(|s| fx(s.0)), "sv4": sv.map(|s| fx(s.1)),
+    }));
+  }
+}
+
 pub fn run(args: &[String]) {
+  if args.first().map(|s| s.as_str()) == Some("corpus") {
+    corpus_cases();
+    return;
+  }
   let seed = arg_u64(args, 0, 1);
   let ncases = arg_u64(args, 1, 24) as usize;
   let max_side = arg_u64(args, 2, 10) as usize;
